@@ -23,6 +23,7 @@ type Env struct {
 	inOld    bool
 	depth    int
 	rootSt   *State
+	preNext  Term // allocation frontier before the call (callee postconditions)
 }
 
 type specErr struct{ msg string }
@@ -351,6 +352,10 @@ func constType(t types.Type) types.Type {
 
 func (x *Exec) trIdent(env *Env, name string) Val {
 	if v, ok := env.vars[name]; ok {
+		if v.Ref != nil {
+			// an address-taken local: its current value in the state at hand
+			return x.derefVal(env.st, *v.Ref, v.RefTy)
+		}
 		return v
 	}
 	if name == "nil" {
@@ -668,6 +673,24 @@ func (x *Exec) trCall(env *Env, e ECall) Val {
 			}
 		}
 		return Val{T: Bool(!dep), Ty: tyBool}
+	case "deref":
+		p := x.tr(env, e.Args[0])
+		pt, ok := p.Ty.Underlying().(*types.Pointer)
+		if !ok {
+			env.fail("deref of non-pointer %s", exprString(e.Args[0]))
+		}
+		_ = pt
+		return x.derefVal(env.st, p, p.Ty)
+	case "isfresh":
+		// isfresh(a): address a was allocated during the call (post-state of a callee
+		// contract) or during this function (own postcondition)
+		v := x.tr(env, e.Args[0])
+		pre := env.preNext
+		if pre.IsZero() {
+			x.declare("brk!", SInt)
+			pre = Term{"brk!", SInt}
+		}
+		return Val{T: Ge(v.T, pre), Ty: tyBool}
 	case "brk":
 		x.declare("brk!", SInt)
 		return Val{T: Term{"brk!", SInt}, Ty: tyInt}
